@@ -128,7 +128,7 @@ def _pick(i):
     return POOL[0]
 
 
-def h_field(n: int, c0: int, c1: int, c2: int) -> bool:
+def h_field(n: int, c0: int, c1: int, c2: int, cfgrepo: bool) -> bool:
     """
     pre: 0 <= n <= MAXN and all(0 <= c < len(POOL) for c in [c0, c1, c2])
     post: _
@@ -137,10 +137,24 @@ def h_field(n: int, c0: int, c1: int, c2: int) -> bool:
     for k, c in enumerate([c0, c1, c2]):
         if k < n:
             s = s + _pick(c)
-    return fin(roundtrip(FIELD, s) == [], n == 2)
+    return fin(_with_cfg(FIELD, s, True if cfgrepo else False) == [], n == 2)
 
 
-def real_h_field(n, c0, c1, c2):
+@untraced
+def _with_cfg(field, s, cfgrepo):
+    """process-wide configuration must not leak into a report that is read back: Configuration.repository set / unset while reading"""
+    from codelimit.common.Configuration import Configuration
+    saved = Configuration.repository
+    Configuration.repository = GithubRepository("cfg-owner", "cfg-name", "cfg-branch") if cfgrepo else None
+    try:
+        f = roundtrip.__wrapped__ if hasattr(roundtrip, "__wrapped__") else roundtrip
+        return f(field, s)
+    finally:
+        Configuration.repository = saved
+
+
+def real_h_field(n, c0, c1, c2, cfgrepo):
     s = "".join(POOL[c] for c in [c0, c1, c2][:n])
-    bad = roundtrip.__wrapped__(FIELD, s) if hasattr(roundtrip, "__wrapped__") else roundtrip(FIELD, s)
+    f = _with_cfg.__wrapped__ if hasattr(_with_cfg, "__wrapped__") else _with_cfg
+    bad = f(FIELD, s, cfgrepo)
     return {"reproduced": bool(bad), "sig": f"report:{'+'.join(sorted(set(bad)))}", "detail": f"field {FIELD} = {s!r}: {bad}"}
